@@ -197,7 +197,11 @@ pub fn random_item(r: &mut Rng, depth: u32) -> Item {
 }
 
 pub fn pal_float(r: &mut Rng) -> f64 {
-    match r.below(16) {
+    match r.below(20) {
+        16 => 1700000001.0,
+        17 => *r.pick(&[16777217.0, -16777217.0, 4294967297.0, 9007199254740992.0, -1700000001.0, 1e15, 123456789012.0]),
+        18 => r.range(-1_000_000_000_000, 1_000_000_000_000) as f64,
+        19 => 0.1 + r.range(-1000, 1000) as f64,
         0 => 0.0,
         1 => -0.0,
         2 => 1.0,
